@@ -274,6 +274,52 @@ pub fn run_c05_c06(prop: &str) -> Report {
     for p in parts {
         rep.merge(p);
     }
+    // the amount an output carries is not an input of its type or address: one representative per reference class under
+    // amounts 0, 1, dust, around 21 million coins (the Bitcoin supply, routinely exceeded on Dogecoin), 2^53 + 1, 2^62 and
+    // 2^64 - 1, alone in a transaction and side by side
+    let amount_cases: Vec<(&'static Coin, &'static str)> = coins.iter().flat_map(|c| ["csvdump", "unspentcsvdump"].into_iter().map(move |cb| (*c, cb))).collect();
+    let parts = par_fold(
+        &amount_cases,
+        || Report::new(prop, "e1"),
+        |w, _i, (c, cbn), acc| {
+            let wk = Worker::new(&root, 600 + w);
+            let mut seen = std::collections::BTreeSet::new();
+            let reps: Vec<Vec<u8>> = representatives(c, true).into_iter().filter(|s| s.len() <= 300 && seen.insert(script::expect(c, s).class.to_string())).collect();
+            let amounts: [u64; 10] = [0, 1, 546, 2_100_000_000_000_000 - 1, 2_100_000_000_000_000, 2_100_000_000_000_001, 2_500_000_000_000_000, (1 << 53) + 1, 1 << 62, u64::MAX];
+            let mut cb = ChainBuilder::with_genesis(c);
+            let mut txs = Vec::new();
+            let mut k = 0u32;
+            for sc in &reps {
+                for a in amounts {
+                    txs.push(Tx { version: 1, segwit: false, inputs: vec![TxIn::spend([0xea; 32], k)], outputs: vec![TxOut { value: a, script: sc.clone() }], locktime: k, wide: 0 });
+                    k += 1;
+                }
+                txs.push(Tx { version: 1, segwit: false, inputs: vec![TxIn::spend([0xea; 32], k)], outputs: amounts.iter().map(|a| TxOut { value: *a, script: sc.clone() }).collect(), locktime: k, wide: 0 });
+                k += 1;
+            }
+            let second = txs.split_off(txs.len() / 2);
+            cb.push(txs);
+            cb.push(second);
+            let world = World::simple(c, &cb.blocks, 0);
+            let spec = RunSpec::new(c.name, cbn);
+            let r = match wk.world_run(&world, &spec) {
+                Ok(r) => r,
+                Err(m) => return acc.machinery(m),
+            };
+            acc.states += 1;
+            acc.transitions += 1;
+            acc.count("class-representative-x-amount", (reps.len() * amounts.len()) as u64);
+            acc.nontrivial.insert(h8(format!("amounts{}{}", c.name, cbn).as_bytes()));
+            let range = cb.mblocks();
+            let bad = if *cbn == "csvdump" { check_csvdump(&r, c, &range, 0, 2) } else { check_unspent(&r, c, &range, 0, 2) };
+            if let Some((sig, detail)) = bad.into_iter().next() {
+                acc.disagree(&format!("binding:amounts:{}", sig), format!("{} {} ({} classes x {} amounts): {}", c.name, cbn, reps.len(), amounts.len(), detail.chars().take(500).collect::<String>()), json!({"kind": "e1-described", "world": "one representative per class under 10 amounts", "coin": c.name, "callback": cbn}));
+            }
+        },
+    );
+    for p in parts {
+        rep.merge(p);
+    }
     let _ = std::fs::remove_dir_all(&root);
     rep
 }
@@ -340,6 +386,13 @@ pub fn run_c16() -> Report {
             let mut spec = RunSpec::new(c.name, "opreturn").range(*s0, *e0);
             spec.verbosity = if _i % 2 == 1 { 3 } else { 0 };
             spec.threads = [2u32, 3, 4, 1, 16][_i % 5];
+            // how the directory is named is no input of what is printed: every third case through a path of more than 600
+            // bytes (the log lines that mention it get long), one in three through names with spaces and non-ASCII characters
+            match _i % 3 {
+                1 => spec.env.push(("VERIF_PATH_FORM".into(), "11".into())),
+                2 => spec.env.push(("VERIF_PATH_FORM".into(), "9".into())),
+                _ => {}
+            }
             let r = match wk.world_run(&world, &spec) {
                 Ok(r) => r,
                 Err(m) => return acc.machinery(m),
